@@ -1,6 +1,7 @@
 import Iec.Lemmas.Srv104
 import Iec.Model.Cli104
 import Iec.Gen.Consts104
+import Iec.Lemmas.Srv104Vr
 /-
 C03 — CS104 wire format and send/receive sequence numbering are exact.
 
@@ -16,7 +17,8 @@ Theorems on the server model `Iec.Srv104` (every frame the model writes is produ
 N(R) = V(R), V(S) advances by exactly one mod 32768 iff the write succeeded - so the n-th
 I-frame of a connection carries (s0 + n - 1) mod 32768 from any start s0, the wrap being
 the `% 32768`; stated over histories as `nth_iframe_ns`), `sendS_spec`, `u_frames`.  V(R) advances exactly when both sequence checks
-pass: C05 `delivery` (same code path).  Client role (`Iec.Cli104`, tied by its own differential):
+pass: C05 `delivery` (same code path); over histories: `nr_is_accepted_count` / `vr_is_start_plus_accepted`
+(`Lemmas/Srv104Vr.lean`: V(R) changes only when an I-format APDU passes both sequence checks).  Client role (`Iec.Cli104`, tied by its own differential):
 `client_sendI_spec`, `client_sendS_spec`, `client_u_frames` - the same laws for cs104_connection.c.
 -/
 namespace Iec.Props.C03
@@ -127,6 +129,27 @@ theorem nth_iframe_ns (asdus : List (List Nat)) : ∀ (s : Slave) (i : Nat), i <
     simp only [Function.comp, Prod.map]
     congr 2
     omega
+
+/-! ### histories: N(R) = number of accepted I-format APDUs -/
+
+/-- **every N(R) the server sends equals the number of I-format APDUs accepted so far, modulo 32768, including across
+the wrap**: after any sequence of received messages on a connection (I-, S-, U-format, well-formed or not), V(R) is
+V(R) at the start plus the number of accepted I-format APDUs (`vr_counts_accepted`; V(R) is 0 when the connection is
+opened), and the S-format APDU then written carries exactly that value (`sendS_spec`); I-format APDUs carry it by
+`sendI_spec`. -/
+theorem nr_is_accepted_count (s : Slave) (i : Nat) (hi : i < s.conns.length) (ms : List (List Nat))
+    (h0 : (s.conn i).vr = 0) (h1 : ((recvAll s i ms).conn i).sock.writeFail = false)
+    (h2 : ((recvAll s i ms).conn i).sock.peerClosed = false) :
+    (sendS (recvAll s i ms) i).log = (recvAll s i ms).log ++
+      [.tx i [0x68, 0x04, 0x01, 0, seqLo (acceptedCount s i ms % 32768), seqHi (acceptedCount s i ms % 32768)]] := by
+  have hv := vr_counts_accepted ms s i hi (by rw [h0]; decide)
+  rw [h0, Nat.zero_add] at hv
+  rw [sendS_spec _ i h1 h2, hv]
+
+/-- the counter itself, from any start value -/
+theorem vr_is_start_plus_accepted (s : Slave) (i : Nat) (hi : i < s.conns.length) (ms : List (List Nat))
+    (hv : (s.conn i).vr < 32768) :
+    ((recvAll s i ms).conn i).vr = ((s.conn i).vr + acceptedCount s i ms) % 32768 := vr_counts_accepted ms s i hi hv
 
 /-! ### client role (cs104_connection.c) -/
 section Client
